@@ -718,9 +718,14 @@ class Sim:
                 r = Term("I" + base, (a, b), ty_a)
         if op.endswith("WithOverflow"):
             st.notes.add("assume-no-integer-overflow")
-            if not (isinstance(a, Const) and isinstance(b, Const)):
+            ovf = False
+            if isinstance(a, Const) and isinstance(b, Const) and isinstance(a.val, int) and isinstance(b.val, int) and not isinstance(a.val, bool):
+                # concrete operands: the overflow flag is exact (e.g. `N - 1` with const N = 0)
+                m = {"Add": a.val + b.val, "Sub": a.val - b.val, "Mul": a.val * b.val}.get(base)
+                ovf = m is not None and wrap_int(m, ty_a) != m
+            else:
                 st.arith.append((base, repr(a), repr(b)))
-            return Struct(tuple_ty([ty_a, prim("bool")]), (r, Const(False, prim("bool"))))
+            return Struct(tuple_ty([ty_a, prim("bool")]), (r, Const(ovf, prim("bool"))))
         return r
 
     def eval_rvalue(self, st, fr, rv, dest_ty):
@@ -893,7 +898,8 @@ class Sim:
             if f is not None and "body" in f and self.inline_filter is not None and not self.inline_filter(f):
                 # deliberately opaque callee: logged effect + fresh symbolic result
                 call2 = dict(call)
-                call2["orig"] = {"trait": "opaque::" + ((f.get("impl_self") or {}).get("name") or "fn"), "name": f["name"]}
+                gs = ",".join(ty_str(g) for g in gargs)
+                call2["orig"] = {"trait": "opaque::" + ((f.get("impl_self") or {}).get("name") or "fn") + ("<%s>" % gs if gs else ""), "name": f["name"]}
                 r = self.oracle_call(st, call2)
                 self.finish_call(st, fr, dest, r, ret_bb)
                 return
